@@ -10,6 +10,7 @@ from .. import harness
 from ..common import digest, panic_sig
 from ..engines import create as E
 from ..gen.vcfgen import CallSet, Record, parse_gt, gt_str
+from ..gen import vcfgen
 from ..oracle.callset import classify
 
 LEVEL = "exploration"
@@ -18,7 +19,7 @@ EXHAUSTIVE = {"quick": True, "thorough": True}
 RULE = ("exhaustive: every GT string over alleles {., 0, 1, 2, 3, 70}, separators {/, |}, ploidy 1-3 (942 strings; the lone '.' is VCF's "
         "missing-VALUE token, not a ploidy-1 genotype, and is excluded from the oracle's domain - 941 classified), each in its own "
         "one-record two-sample input, x role {selected, unselected, one of two selected samples next to a complete/missing/multiallelic one, before and after it, without projection and (every diploid string) under EVERY projection target of one population of two samples (0-4 chromosomes, odd and even shapes, --project-shape and --project-individuals) and of two one-sample populations (0-2 chromosomes each) - whether the site still counts then depends on the classification} x container {vcf, raw bcf, bgzf bcf, bgzf vcf}; quick runs L2 for all and C "
-        "for vcf + raw bcf, thorough all four containers at C. Further: every GT string over {., 0} at records without an ALT allele; a non-diploid genotype in an unselected column that precedes the selected one. A supplementary (not exhaustive) sweep uses allele indices 255..2^63-1 around powers of two in the VCF path. Non-trivial: every string except 0/0; distinct = (string, role, container, level).")
+        "for vcf + raw bcf, thorough all four containers at C. Further: every diploid string with a leading separator (VCF 4.4 `|0|1`, `/1/1`) == its plain spelling; every GT string over {., 0} at records without an ALT allele; a non-diploid genotype in an unselected column that precedes the selected one. A supplementary (not exhaustive) sweep uses allele indices 255..2^63-1 around powers of two in the VCF path. Non-trivial: every string except 0/0; distinct = (string, role, container, level).")
 ASSUMPTIONS = ["'./2' style strings (missing AND multiallelic) may be reported with either reason; only 'skipped' is required",
                "allele 70 forces an int16 GT vector in BCF"]
 FLOORS = {"quick": {"evaluations": 5000, "distinct_nontrivial": 5000, "counts": {"L2_classifications": 3700, "C_runs": 3700, "C_pair_runs": 5000, "C_big_allele_runs": 200}},
@@ -53,7 +54,10 @@ def make_cs(g, role, other="0/1", nalt=None, swap_columns=False):
     if swap_columns:
         gts, names = gts[::-1], names[::-1]
     rec = Record("ctg7", 4242, gts, ref="A", alts=ALTS[:maxa])
-    return CallSet(names, [("ctg7", 100000)], [rec])
+    # the record's contig is neither the first header line nor (in BCF) at the dictionary index of its line: messages must still name it
+    cs = CallSet(names, [("ctg1", 5000), ("ctg7", 100000), ("ctg9", 70000)], [rec])
+    cs.contig_perm = [1, 2, 0]
+    return cs
 
 
 PROJ_VARIANTS = [[2], [0], [1], [3], [4], [0, 0], [0, 2], [2, 0], [1, 1], [2, 1], [0, 1], [1, 2], [2, 2], [1, 0]]
@@ -151,10 +155,39 @@ def no_alt_and_column_order(S, p):
         S.case(key="CX|%s|%s|%s" % (what, s_, container), nontrivial=True)
 
 
+def leading_separator_sweep(S, p):
+    """VCF 4.4 lets a genotype start with a separator giving the phase of its first allele (`|0|1`, `/1/1`, `|./1`): every diploid string
+    of the alphabet with either separator in front must be classified exactly like the plain spelling (vcf and vcf.gz)."""
+    for s_ in p["gts"]:
+        g = parse_gt(s_)
+        if len(g[0]) != 2:
+            continue
+        cs = make_cs(g, "selected")
+        plain = cs.to_vcf()
+        needle = b"GT\t" + s_.encode() + b"\t"
+        if plain.count(needle) != 1:
+            continue
+        base = E.cli_create(plain, [("sel", None)], extra=["-vv"])
+        for lead in ("|", "/"):
+            text = plain.replace(needle, b"GT\t" + lead.encode() + s_.encode() + b"\t")
+            for container in ("vcf", "vcf.gz"):
+                data = text if container == "vcf" else vcfgen.bgzf(text)
+                r = E.cli_create(data, [("sel", None)], extra=["-vv"])
+                S.count("C_runs")
+                S.count("C_leading_separator_runs")
+                from .. import replay as R
+                if r.rc != base.rc or r.out != base.out or E.parse_stderr(r.err)[2] != E.parse_stderr(base.err)[2]:
+                    S.viol("C08:leading-separator:%s" % container, "[C %s GT %s%s] differs from the plain spelling %s: rc %s stdout %r stderr %r vs rc %s stdout %r" % (
+                        container, lead, s_, s_, r.rc, r.out[:80], r.err[:160], base.rc, base.out[:80]),
+                        {"gt": lead + s_, "level": "C", "argv": r.argv, "input_b64": E.b64(data), "run": r.brief(), "replay": R.same(base, r)})
+                S.case(key="LS|%s|%s|%s" % (lead, s_, container), nontrivial=True)
+
+
 def shard(S, p):
     if "replay" not in p:
         big_allele_sweep(S, p)
         no_alt_and_column_order(S, p)
+        leading_separator_sweep(S, p)
     gts = p["gts"] if "replay" not in p else [p["replay"]["gt"]]
     cont_c = p.get("cont_c", ["vcf", "rawbcf", "bcf", "vcf.gz"])
     # ---------------- L2: classification codes from the genotype reader
